@@ -68,6 +68,14 @@ INIT_MENU_EXTRA = [
 UP_MENU = [("wild-parent", "from pkg import *"), ("wild-dot", "from . import *"), ("from-parent-x", "from pkg import x"), ("from-dot-y", "from . import y"), ("from-parent-x-as-y", "from pkg import x as y")]
 UP_INITS = [("up:wild-b", "from .b import *"), ("up:from-b-x", "from .b import x"), ("up:def-x", "def x(): ..."), ("up:val-x-all", "x = V('pkg:x')\ny = V('pkg:y')\n__all__ = ['x']"),
             ("up:wild-b-all-y", "from .b import *\n__all__ = ['y']"), ("up:wild-b-then-def-x", "from .b import *\ndef x(): ..."), ("up:def-x-then-wild-b", "def x(): ...\nfrom .b import *")]
+# S: a sub-package. pkg/{__init__, top}.py and pkg/sub/{__init__, m}.py; sub/__init__ imports from its parent package (level 2), from the
+# parent's module, from its own module; pkg/sub/m.py imports upwards as well
+S_MENU = [("up-x", "from .. import x"), ("up-x-as-z", "from .. import x as z"), ("up-star", "from .. import *"), ("up-top-x", "from ..top import x"), ("up-top-star", "from ..top import *"),
+          ("up-top-mod", "from .. import top"), ("abs-x", "from pkg import x"), ("dot-m", "from . import m"), ("m-star", "from .m import *"), ("m-w", "from .m import w"), ("def-x", "def x():\n    \"\"\"doc x\"\"\""),
+          ("all-x", "__all__ = ['x']")]
+S_INITS = [("sub:defs", "def x(): ...\ny = V('pkg:y')"), ("sub:wild-top", "from .top import *"), ("sub:from-top-all", "from .top import x\n__all__ = ['x']")]
+S_MODS = {"m-plain": "def w(): ...", "m-up": "from .. import x\ndef w(): ...", "m-up-top": "from ..top import y as w"}
+S_TOP = "def x():\n    \"\"\"top x\"\"\"\nclass y:\n    \"\"\"top y\"\"\"\n_p = V('pkg.top:_p')\n"
 _MAXA = {"quick": 2, "thorough": 3}
 
 
@@ -93,6 +101,7 @@ def all_cases(tier):
                 for init in inits:
                     yield (sel, bv, init[0])
     yield from _cases_up(tier)
+    yield from _cases_sub(tier)
 
 
 def _cases_up(tier):
@@ -105,6 +114,17 @@ def _cases_up(tier):
         for bv in B_VARIANTS:
             for init in UP_INITS:
                 yield (sel, bv, init[0])
+
+
+def _cases_sub(tier):
+    labels = [m[0] for m in S_MENU]
+    for n in (1, 2) if tier == "quick" else (1, 2, 3):
+        for sel in itertools.permutations(labels, n):
+            for mv in S_MODS:
+                if n == 3 and mv != "m-plain":
+                    continue
+                for init in S_INITS:
+                    yield (sel, mv, init[0])
 
 
 def _plausible(sel):
@@ -134,6 +154,14 @@ def _text(labels, modname, menu):
 
 def files_for(case):
     sel, bv, init = case
+    if init.startswith("sub:"):
+        return {
+            "vmod.py": "class V:\n    def __init__(self, origin):\n        self.origin = origin\n",
+            "pkg/__init__.py": PRE + dict(S_INITS)[init] + "\n",
+            "pkg/top.py": PRE + S_TOP,
+            "pkg/sub/__init__.py": _text(sel, "pkg.sub", S_MENU),
+            "pkg/sub/m.py": PRE + S_MODS[bv] + "\n",
+        }
     inits = dict(INIT_MENU + INIT_MENU_EXTRA + UP_INITS)
     return {
         "vmod.py": "class V:\n    def __init__(self, origin):\n        self.origin = origin\n",
@@ -154,14 +182,18 @@ def _origin(obj):
     return "VALUE:" + repr(obj)
 
 
-def cpython_view(root):
+MODS_FLAT = ("pkg", "pkg.b", "pkg.a")
+MODS_SUB = ("pkg", "pkg.top", "pkg.sub", "pkg.sub.m")
+
+
+def cpython_view(root, modnames=MODS_FLAT):
     """-> {module: ({name: origin}, __all__ or None)} or ('REJECT', exc)"""
     with sandbox.interpreter_state():
         sys.path.insert(0, root)
         importlib.invalidate_caches()
         try:
             mods = {}
-            for name in ("pkg", "pkg.b", "pkg.a"):
+            for name in modnames:
                 mods[name] = importlib.import_module(name)
             out = {}
             for name, mod in mods.items():
@@ -179,14 +211,14 @@ def cpython_view(root):
                 del sys.modules[k]
 
 
-def griffe_view(griffe, root):
+def griffe_view(griffe, root, modnames=MODS_FLAT):
     loader = griffe.GriffeLoader(search_paths=[root], allow_inspection=False)
     pkg = loader.load("pkg")
     loader.load("vmod")
     loader.resolve_aliases(implicit=True, external=False)
     out = {}
     proxies = []
-    for name in ("pkg", "pkg.b", "pkg.a"):
+    for name in modnames:
         mod = loader.modules_collection[name]
         ns = {}
         for k, m in mod.members.items():
@@ -208,6 +240,8 @@ def griffe_view(griffe, root):
 
 def _pattern(case, module):
     sel, bv, init = case
+    if init.startswith("sub:"):
+        return {"pkg.sub": "subinit[" + ",".join(sel) + "]", "pkg.sub.m": bv, "pkg": init, "pkg.top": "top"}[module]
     if module == "pkg.a":
         return "a[" + ",".join(sel) + "]"
     if module == "pkg.b":
@@ -219,11 +253,13 @@ def run_case(griffe, acc, case):
     files = files_for(case)
     with sandbox.scratch_dir("c05") as d:
         sandbox.write_tree(d, files)
-        exp = cpython_view(d)
+        is_sub = case[2].startswith("sub:")
+        modnames = MODS_SUB if is_sub else MODS_FLAT
+        exp = cpython_view(d, modnames)
         cd = {"case": [list(case[0]), case[1], case[2]], "files": {k: v for k, v in files.items() if k != "vmod.py"}}
         size = sum(len(v) for v in files.values())
         try:
-            got, proxies = griffe_view(griffe, d)
+            got, proxies = griffe_view(griffe, d, modnames)
         except Exception as e:  # noqa: BLE001
             import traceback
 
@@ -240,8 +276,12 @@ def run_case(griffe, acc, case):
         has_import = any(s.startswith(("wild", "from", "import", "abs")) for s in case[0]) or case[2] != "none"
         acc.case(cd, outcome="imported", nontrivial=has_import)
         acc.observe(got)
-        for mod in (("pkg.b", "pkg", "pkg.a") if case[2].startswith("up:") else ("pkg.b", "pkg.a", "pkg")):
+        for mod in (("pkg.top", "pkg", "pkg.sub.m", "pkg.sub") if is_sub else ("pkg.b", "pkg", "pkg.a") if case[2].startswith("up:") else ("pkg.b", "pkg.a", "pkg")):
             (ens, eall), (gns, gall) = exp[mod], got[mod]
+            if is_sub and mod == "pkg.sub" and "up-star" in case[0]:
+                # (see the U family: sub-module attributes copied by a star import of the parent are an artefact of import order)
+                ens = {k: v for k, v in ens.items() if not (k in ("top", "sub") and v in MODS_SUB)}
+                gns = {k: v for k, v in gns.items() if not (k in ("top", "sub") and v in MODS_SUB)}
             if case[2].startswith("up:") and mod == "pkg.a":
                 # a star import of the parent also copies the sub-module attributes that happen to be bound on the package at that moment
                 # (an artefact of import order, here of the harness importing pkg.b first): module-valued names are not judged
@@ -251,7 +291,7 @@ def run_case(griffe, acc, case):
             bad = False
             for n in sorted(set(ens) ^ set(gns)):
                 what = "extra" if n in gns else "missing"
-                shape = "private" if n.startswith("_") else "module" if n in ("a", "b", "pkg") else "public"
+                shape = "private" if n.startswith("_") else "module" if n in ("a", "b", "pkg", "top", "sub", "m") else "public"
                 acc.violation(f"names/{what}/{shape}/{_pattern(case, mod)}", f"{mod}: name {n!r} {what} (Griffe {sorted(gns)} vs CPython {sorted(ens)})", cd, {"got": gns, "expected": ens}, size=size)
                 bad = True
             for n in sorted(set(ens) & set(gns)):
